@@ -10,8 +10,10 @@ import (
 	"bytes"
 	"crypto/ecdsa"
 	"crypto/ed25519"
+	"crypto/elliptic"
 	"fmt"
 
+	"github.com/btcsuite/btcd/btcec"
 	"github.com/golang/protobuf/proto"
 	"github.com/google/tink/go/insecurecleartextkeyset"
 	"github.com/google/tink/go/keyset"
@@ -47,6 +49,10 @@ func (l *LocalKMS) importECDSAKey(privKey *ecdsa.PrivateKey, kt kms.KeyType,
 	err := validECPrivateKey(privKey)
 	if err != nil {
 		return "", nil, fmt.Errorf("import private EC key failed: %w", err)
+	}
+
+	if curve := ecCurveOfKeyType(kt); curve != nil && !curve.IsOnCurve(privKey.X, privKey.Y) {
+		return "", nil, fmt.Errorf("import private EC key failed: public key is not a point on the curve of key type %s", kt)
 	}
 
 	switch kt {
@@ -273,6 +279,22 @@ func (l *LocalKMS) importBBSKey(privKey *bbs12381g2pub.PrivateKey, kt kms.KeyTyp
 	ks := newKeySet(bbsSignerKeyTypeURL, mKeyValue, tinkpb.KeyData_ASYMMETRIC_PRIVATE)
 
 	return l.importKeySet(ks, opts...)
+}
+
+// ecCurveOfKeyType returns the elliptic curve the keys of an EC key type are on, nil for any other key type.
+func ecCurveOfKeyType(kt kms.KeyType) elliptic.Curve {
+	switch kt {
+	case kms.ECDSAP256TypeDER, kms.ECDSAP256TypeIEEEP1363, kms.NISTP256ECDHKWType:
+		return elliptic.P256()
+	case kms.ECDSAP384TypeDER, kms.ECDSAP384TypeIEEEP1363, kms.NISTP384ECDHKWType:
+		return elliptic.P384()
+	case kms.ECDSAP521TypeDER, kms.ECDSAP521TypeIEEEP1363, kms.NISTP521ECDHKWType:
+		return elliptic.P521()
+	case kms.ECDSASecp256k1DER, kms.ECDSASecp256k1IEEEP1363:
+		return btcec.S256()
+	default:
+		return nil
+	}
 }
 
 func validECPrivateKey(privateKey *ecdsa.PrivateKey) error {
